@@ -78,6 +78,8 @@ impl Engine for IdleEngine {
                     let (m, e) = match when.as_str() { "queued-events" => (0, BURST), "after-loads" => (BURST, 0), "after-reload" => (1, 0), _ => (0, 0) };
                     let model_line = format!("{line} {m} {e}");
                     let out = child::run_child("idle", line);
+                    // a child that was killed could not remove its temp dirs
+                    let _ = std::fs::remove_dir_all(std::env::temp_dir().join(format!("amh-idle-{}", out.pid)));
                     for s in &out.stats { rec.stat(s.clone()); }
                     for o in &out.oracle { rec.oracle_fail(o.clone()); }
                     match &out.exit {
